@@ -192,11 +192,21 @@ impl SearchFilters {
     fn special_filter_to_bytes(name: &str, filters: &HashMap<Discriminant<Filter>, Filter>) -> Vec<u8> {
         let mut bytes = Vec::new();
 
-        if !filters.is_empty() {
+        // Filters that result in no condition (no tags) don't count
+        let conditions: Vec<Vec<u8>> = filters
+            .values()
+            .map(Filter::to_bytes)
+            .filter(|condition| !condition.is_empty())
+            .collect();
+
+        if !conditions.is_empty() {
+            // The group is announced as `\name\[number of conditions]`
+            bytes.extend([b'\\']);
             bytes.extend(name.as_bytes());
-            bytes.extend(filters.len().to_string().as_bytes());
-            for filter in filters.values() {
-                bytes.extend(filter.to_bytes());
+            bytes.extend([b'\\']);
+            bytes.extend(conditions.len().to_string().as_bytes());
+            for condition in conditions {
+                bytes.extend(condition);
             }
         }
 
